@@ -19,6 +19,7 @@ NOT attempted:    footprint_bound — the closed-form bound  footprint ≤ f(pea
                   becomes constant and stays so.
 -/
 import TinyVerif.Proofs.DlStep
+import TinyVerif.Proofs.DlVictim
 namespace TinyVerif.Dl
 
 /-! ## footprint_exact / os_balance -/
@@ -110,6 +111,162 @@ theorem trim_leaves_at_most_a_granule (topsize pad : Nat) (h : topsize > pad) :
   simp only [DEFAULT_GRANULARITY]
   omega
 
+
+/-- `release_unused_segments` does release an unused segment: when the first chunk of a non-head
+segment `g` is free and reaches the segment's trailer, and the OS serves the munmap, the scan calls
+`munmap(g.base, g.size)` — exactly the segment — takes `g.size` off the footprint, forgets every
+header of the segment and drops `g` from the segment list (the surviving list is what the scan makes
+of the remaining segments) -/
+theorem unused_segment_released (g : Seg) (rest rest' : List Seg) (s s' : St) (rel n rel' n' : Nat) (e : Ent)
+    (q : List OsDir)
+    (he : findEnt s.h.ents (align_as_chunk g.base) = some e) (hfree : e.inuse = false)
+    (hcover : align_as_chunk g.base + e.size ≥ g.base + (g.size - top_foot_size))
+    (hos : s.osq = .u true :: q)
+    (h : releaseLoop (g :: rest) s rel n = .ok (rest', s', rel', n')) :
+    ∃ s1, releaseLoop rest s1 (rel + g.size) (n + 1) = .ok (rest', s', rel', n') ∧
+      s1.footprint + g.size = s.footprint ∧ s1.evs = s.evs ++ [.munmap g.base g.size true] ∧
+      (∀ x ∈ s1.h.ents, ¬ (g.base ≤ x.addr ∧ x.addr < g.base + g.size)) := by
+  unfold releaseLoop at h
+  dsimp only at h
+  msimp at h
+  obtain ⟨e', he', _, _, h⟩ := h
+  have hee : e' = e := by
+    have := getE_spec he'
+    rw [he] at this
+    injection this with this
+    exact this.symm
+  subst hee
+  have hcond : (!e'.inuse && decide (align_as_chunk g.base + e'.size ≥ g.base + (g.size - top_foot_size))) = true := by
+    simp [hfree, hcover]
+  rw [if_pos hcond] at h
+  msimp at h
+  obtain ⟨_, _, h1, hh1, ⟨ok, s1⟩, hu, h⟩ := h
+  obtain ⟨q', hq', hs1⟩ := popU_spec hu
+  have hok : ok = true := by
+    simp only at hq'
+    rw [hos] at hq'
+    injection hq' with h1 _
+    injection h1 with h1
+    exact h1.symm
+  subst hok
+  dsimp only at h
+  rw [if_pos rfl] at h
+  msimp at h
+  obtain ⟨_, hlt, ⟨r1, s2, rl, nn⟩, hrec, h⟩ := h
+  simp only [Prod.mk.injEq] at h
+  obtain ⟨e1, e2, e3, e4⟩ := h
+  subst e1; subst e2; subst e3; subst e4
+  simp only [decide_eq_false_iff_not, Nat.not_lt] at hlt
+  refine ⟨_, hrec, ?_, ?_, ?_⟩
+  · subst hs1; simp only at hlt ⊢; omega
+  · subst hs1; rfl
+  · subst hs1
+    intro x hx
+    simp only [Heap.tag, dropEnts, List.mem_filter] at hx
+    obtain ⟨_, hx2⟩ := hx
+    intro hc
+    have : (decide (g.base ≤ x.addr) && decide (x.addr < g.top)) = true := by
+      simp [Seg.top, hc.1, hc.2]
+    rw [this] at hx2
+    cases hx2
+
+
+theorem writeHead_keeps {h h' : Heap} {a size : Nat} {c p : Bool} (hh : writeHead h a size c p = .ok h') :
+    h'.top = h.top ∧ h'.topsize = h.topsize ∧ h'.dv = h.dv ∧ h'.dvsize = h.dvsize ∧ h'.sbins = h.sbins ∧ h'.tbins = h.tbins := by
+  unfold writeHead at hh
+  split at hh
+  · msimp at hh
+  · msimp at hh
+    subst hh
+    exact ⟨rfl, rfl, rfl, rfl, rfl, rfl⟩
+
+theorem init_top_spec {s s' : St} {ptr size : Nat} (h : init_top s ptr size = .ok s') :
+    s'.h.top = ptr + align_offset_usize (ptr + MEM_OFFSET) ∧
+    s'.h.topsize = size - align_offset_usize (ptr + MEM_OFFSET) ∧
+    s'.trim_check = DEFAULT_TRIM_THRESHOLD := by
+  unfold init_top at h
+  dsimp only at h
+  msimp at h
+  obtain ⟨_, _, h1, hw1, h2, hw2, h⟩ := h
+  subst h
+  have k1 := writeHead_keeps hw1
+  have k2 := writeHead_keeps hw2
+  simp only at k1 k2
+  refine ⟨?_, ?_, rfl⟩
+  · show h2.top = _; rw [k2.1, k1.1]
+  · show h2.topsize = _; rw [k2.2.1, k1.2.1]
+
+/-- **trim_fires**: when `top` exceeds the pad by more than a granule, the segment holding `top` is
+not pinned by another segment's record and the OS serves the mremap, `sys_trim`'s first half gives
+back all whole granules beyond the pad: the footprint drops by `extra`, what is left of `top` is at
+most pad + 64 KiB, and `trim_check` is re-armed -/
+theorem trim_fires (s s' : St) (pad rel : Nat) (sp : Seg) (q : List OsDir)
+    (hgt : s.h.topsize > pad + DEFAULT_GRANULARITY)
+    (hsp : segment_holding s.segs s.h.top = some sp)
+    (hsz : sp.size ≥ ((s.h.topsize - pad + DEFAULT_GRANULARITY - 1) / DEFAULT_GRANULARITY - 1) * DEFAULT_GRANULARITY)
+    (hnl : has_segment_link s.segs sp = false) (hos : s.osq = .r true :: q)
+    (h : trim_top s pad = .ok (s', rel)) :
+    rel = ((s.h.topsize - pad + DEFAULT_GRANULARITY - 1) / DEFAULT_GRANULARITY - 1) * DEFAULT_GRANULARITY ∧
+    rel ≥ DEFAULT_GRANULARITY ∧ s'.footprint + rel = s.footprint ∧
+    s'.h.topsize ≤ pad + DEFAULT_GRANULARITY ∧ s'.trim_check = DEFAULT_TRIM_THRESHOLD := by
+  have hg := DEFAULT_GRANULARITY_eq
+  unfold trim_top at h
+  dsimp only at h
+  rw [hg] at hgt hsz h ⊢
+  rw [if_pos (by omega)] at h
+  rw [hsp] at h
+  dsimp only at h
+  msimp at h
+  obtain ⟨⟨s1, r1⟩, ht, h⟩ := h
+  -- the release step: mremap served
+  have hr : r1 = ((s.h.topsize - pad + 65536 - 1) / 65536 - 1) * 65536 ∧
+      s1 = { s with osq := q, evs := s.evs ++ [.mremap sp.base sp.size (sp.size - r1) true] } := by
+    unfold trim_release at ht
+    dsimp only at ht
+    split at ht
+    · msimp at ht
+      obtain ⟨⟨ok, s2⟩, hp, ht⟩ := ht
+      obtain ⟨q', hq', hs2⟩ := popR_spec hp
+      rw [hos] at hq'
+      injection hq' with e1 e2
+      injection e1 with e1
+      subst e1; subst e2
+      dsimp only at ht
+      rw [if_pos rfl] at ht
+      msimp at ht
+      simp only [Prod.mk.injEq] at ht
+      obtain ⟨t1, t2⟩ := ht
+      subst t1; subst t2
+      exact ⟨rfl, hs2⟩
+    · rename_i hc
+      exfalso; apply hc
+      simp [hnl]; exact hsz
+  obtain ⟨hr1, hs1⟩ := hr
+  have hge : r1 ≥ 65536 := by
+    rw [hr1]; omega
+  dsimp only at h
+  rw [if_pos (by omega)] at h
+  msimp at h
+  obtain ⟨_, hlt, s2, hi, h⟩ := h
+  simp only [decide_eq_false_iff_not, Nat.not_lt] at hlt
+  have i1 := init_top_fp hi
+  have i2 := init_top_spec hi
+  simp only [Prod.mk.injEq] at h
+  obtain ⟨e1, e2⟩ := h
+  subst e1; subst e2
+  have f2 : s2.footprint = s1.footprint - r1 := i1.1
+  subst hs1
+  simp only at hlt f2 i2
+  refine ⟨hr1, hge, ?_, ?_, ?_⟩
+  · simp only [tag_fields, f2]; omega
+  · show (s2.tag "trimmed").h.topsize ≤ _
+    have : (s2.tag "trimmed").h.topsize = s2.h.topsize := rfl
+    rw [this, i2.2.1]
+    simp only [dropEnts]
+    rw [hr1]
+    omega
+  · exact i2.2.2
+
 /-! ## non-vacuity: concrete histories (evaluated by the kernel) -/
 
 theorem ok_of_match {α : Type} {x : M α} {p : α → Bool}
@@ -161,5 +318,38 @@ example : ∃ s' mem, inner_malloc { afterW1.st with osq := [.m (some 2097152)] 
   exact ⟨v.1, v.2, hv, hp⟩
 
 example : (2097153 : Nat) > 80 := by decide
+
+/-- a 3 MB block in a fresh heap, then the chunk work of freeing it: `top` is the whole segment again -/
+def afterBig : Hist := match Hist.init.run [(.malloc 1 3000000 8, [.m (some 1048576)])] with
+  | .ok (hs, _) => hs
+  | .error _ => Hist.init
+
+def preTrim : St := match free_heap afterBig.st.h (1048576 + 16) with
+  | .ok (h, _) => { afterBig.st with h := h, osq := [.r true], evs := [] }
+  | .error _ => afterBig.st
+
+set_option maxRecDepth 20000 in
+/-- hypotheses of `trim_fires` -/
+example : preTrim.h.topsize > 80 + DEFAULT_GRANULARITY ∧
+    (∃ sp, segment_holding preTrim.segs preTrim.h.top = some sp ∧ has_segment_link preTrim.segs sp = false ∧
+      sp.size ≥ ((preTrim.h.topsize - 80 + DEFAULT_GRANULARITY - 1) / DEFAULT_GRANULARITY - 1) * DEFAULT_GRANULARITY) ∧
+    ∃ s' rel, trim_top preTrim 80 = .ok (s', rel) := by
+  refine ⟨by decide, ⟨{ base := 1048576, size := 3014656, recAt := 0 }, by decide, by decide, by decide⟩, ?_⟩
+  obtain ⟨v, hv, _⟩ := ok_of_match (x := trim_top preTrim 80) (p := fun _ => true) (by decide)
+  exact ⟨v.1, v.2, hv⟩
+
+/-- a two-segment heap whose second segment is one free chunk (hypotheses of `unused_segment_released`) -/
+def twoSegs : Hist := match Hist.init.run
+    [(.malloc 1 100 8, [.m (some 8388608)]), (.malloc 2 200000 8, [.m (some 1048576)]), (.malloc 3 300000 8, [.m (some 4194304)]),
+     (.free 2, [])] with
+  | .ok (hs, _) => hs
+  | .error _ => Hist.init
+
+set_option maxRecDepth 20000 in
+example : ∃ g rest e, twoSegs.st.segs = ({ base := 4194304, size := 393216, recAt := 0 } : Seg) :: g :: rest ∧
+    findEnt twoSegs.st.h.ents (align_as_chunk g.base) = some e ∧ e.inuse = false ∧
+    align_as_chunk g.base + e.size ≥ g.base + (g.size - top_foot_size) := by
+  refine ⟨{ base := 1048576, size := 262144, recAt := 1310096 }, [{ base := 8388608, size := 65536, recAt := 8454080 }],
+    { addr := 1048576, size := 262064, cin := false, pin := true, pfoot := 0 }, by decide, by decide, by decide, by decide⟩
 
 end TinyVerif.Dl
